@@ -716,7 +716,7 @@ func (x *c03) concurrentCases() {
 }
 
 func runC19(c *hx.Ctx) {
-	x := &c03{c: c, oracle: map[string]bool{}}
+	x := &c03{c: c, oracle: map[string]bool{}, prop: "c19"}
 	defer x.finishPanics()
 	if c.Replay != "" {
 		x.replay(c.Replay)
